@@ -60,10 +60,7 @@ Theorem C25_no_over_filtering :
     (forall x a, In x (r_samples r) -> s_inst x = h -> s_ts x = Some a -> a + s <= t0) ->
     of_interest r h (Some t0) = true /\
     snd (add_change r w data k h (Some t0) rts) <> NotAdded.
-Proof.
-  exact (fun r w data k h t0 rts s Hs He Far =>
-           conj (of_interest_far r h t0 s Hs Far) (no_over_filtering r w data k h t0 rts s Hs He Far)).
-Qed.
+Proof. exact no_over_filtering_both. Qed.
 
 (* the filter does drop: a sample less than s after a stored sample of its instance (and not
    earlier than it) is not stored *)
